@@ -29,24 +29,55 @@ OUTSIDE = ['narrowing casts of 16-bit PCM into a requested 1-byte dtype (C cast 
 ASSUMPTIONS = [
     'the data section does not START with the shorten magic (the file is declared uncompressed); any later read block may begin with these four bytes (symbolic Boolean per block)',
     'file.read(n) returns min(n, remaining) bytes (io.BufferedReader / BytesIO contract)',
-    'np.frombuffer(buf, dtype, count) element j = bytes [j*size,(j+1)*size) of buf in the given byte order (uninterpreted SAMP), ValueError if buf is too small',
+    'np.frombuffer(buf, dtype, count) element j = bytes [j*size,(j+1)*size) of buf in the given byte order (uninterpreted SAMP(offset,size,order)), ValueError if buf is too small',
+    'ndarray.byteswap() of an item that holds `itemsize` bytes decoded in one order = the same bytes decoded in the other order; of any other item: an unresolved BSWAP term',
     'fancy indexing TABLE[arr] is element-wise table look-up (uninterpreted TAB, tables themselves proved against G.711 separately)',
     'assignment into the result array of a wider or equal integer dtype preserves values',
 ]
 CONFIG_TIME_LIMIT = {'quick': 600, 'thorough': 3000}
 
 I = z3.IntSort()
-SAMP = z3.Function('samp', I, I, I)   # (byte offset in the data section, sample size) -> raw decoded sample
+SAMP3 = z3.Function('samp', I, I, I, I)   # (byte offset in the data section, sample size, byte order 0=little 1=big) -> raw decoded sample
+BSWAP = z3.Function('bswap', I, I, I)     # (item size, value) -> value of the byte-swapped item (only where it cannot be resolved)
+
+
+def SAMP(off, size, order=0):
+    sz = z3.simplify(size) if isinstance(size, z3.ExprRef) else z3.IntVal(size)
+    if z3.is_int_value(sz) and sz.as_long() == 1:
+        order = 0                         # a single byte has no order
+    return SAMP3(off, sz, z3.IntVal(order))
+
+
+def _swap_term(t, itemsize):
+    """value of an item after ndarray.byteswap(): a sample decoded from `itemsize` bytes in one order becomes the same
+    bytes decoded in the other order; anything else (a value-converted sample, a wider item) is an unresolved BSWAP"""
+    if z3.is_app(t) and t.decl().name() == 'if':
+        c_, a_, b_ = t.children()
+        return z3.If(c_, _swap_term(a_, itemsize), _swap_term(b_, itemsize))
+    if z3.is_app(t) and t.decl().eq(SAMP3):
+        off, sz, o = t.children()
+        if z3.is_int_value(sz) and sz.as_long() == itemsize and z3.is_int_value(o):
+            return SAMP(off, sz, 0 if itemsize == 1 else 1 - o.as_long())
+    return BSWAP(z3.IntVal(itemsize), t)
 TAB = z3.Function('tab', I, I, I)     # (table id, code) -> expanded value
 
 
 class DT:
-    def __init__(s, name, itemsize):
+    def __init__(s, name, itemsize, order=0):
         s.name = name
         s.itemsize = itemsize
+        s.order = order          # 0 little-endian (native here), 1 big-endian
 
-    def newbyteorder(s, o):
-        return s
+    def newbyteorder(s, o='S'):
+        if o in ('<', 'L', '=', 'N', '|', 'I') or s.itemsize == 1:
+            new = 0 if o != '|' and o != 'I' else s.order
+        elif o in ('>', 'B'):
+            new = 1
+        elif o == 'S':
+            new = 1 - s.order
+        else:
+            raise ValueError('%s is an unrecognized byteorder' % o)
+        return DT(s.name, s.itemsize, new)
 
     def __eq__(s, o):
         return isinstance(o, DT) and o.name == s.name
@@ -142,7 +173,7 @@ class NP:
         ok = SInt(_z(count) * sz) <= SInt(_z(buf.n))
         if not ok:
             raise ValueError('buffer is smaller than requested size')
-        return ND.fresh((conc(count) if isinstance(count, SInt) else count,), lambda idx: SAMP(off + idx[0] * sz, z3.IntVal(sz)), dtype)
+        return ND.fresh((conc(count) if isinstance(count, SInt) else count,), lambda idx: SAMP(off + idx[0] * sz, z3.IntVal(sz), getattr(dtype, 'order', 0)), DT(dtype.name, dtype.itemsize))
 
 
 class Warn:
@@ -165,6 +196,19 @@ def _reshape2(self, shape, order='C'):
 
 
 ND.reshape = _reshape2
+
+
+def _byteswap(self, inplace=False):
+    sz = self.dtype.itemsize
+    snap = self.snapshot()
+    src = ND.fresh(self.shape, lambda idx: _swap_term(z3.simplify(snap(idx)), sz), self.dtype)
+    if inplace:
+        self[(slice(None),) * self.ndim] = src
+        return self
+    return src
+
+
+ND.byteswap = _byteswap
 
 
 def load():
@@ -192,8 +236,9 @@ def configs(tier, seed):
                     continue  # narrowing cast: outside the claim
                 if coding == 'pcm' and size == 1 and dt is not None:
                     continue
-                cfgs.append(dict(kind='copy', name='copy ch%d %s%d dtype=%s' % (ch, coding, size, dt), ch=ch, coding=coding,
-                                 size=size, dt=dt, maxbytes=maxbytes))
+                for order in (('10', '01') if size == 2 and (ch <= 3 or tier != 'quick') else ('10',)):
+                    cfgs.append(dict(kind='copy', name='copy ch%d %s%d dtype=%s%s' % (ch, coding, size, dt, '' if order == '10' else ' little-endian'), ch=ch, coding=coding,
+                                     size=size, dt=dt, maxbytes=maxbytes, order=order))
     cfgs.append(dict(kind='tables', name='g711 tables'))
     cfgs.append(dict(kind='header', name='header'))
     offs = list(range(-160, 12))
@@ -209,6 +254,7 @@ DTS = {'u1': NP.uint8, 'i1': NP.int8, 'i2': NP.int16, 'i4': NP.int32, None: None
 def run_copy(cfg):
     chan, sampsize, samptype, maxbytes = cfg['ch'], cfg['size'], cfg['coding'], cfg['maxbytes']
     dt = DTS[cfg['dt']]
+    order = cfg.get('order', '10')
     ns = load()
     viol, samples = [], []
     ob = dis = 0
@@ -222,7 +268,7 @@ def run_copy(cfg):
         c.assume(sc >= 1, sc * fs <= maxbytes, present >= 0, present <= sc * fs)
         Warn.log = []
         f = File(present)
-        hdr = (samptype, sampsize, SInt(sc), 8000, chan, '10')
+        hdr = (samptype, sampsize, SInt(sc), 8000, chan, order if sampsize > 1 else '1')
         try:
             data = ns['copy_samples'](f, hdr, dt, IOError('x'))
         except ShortenEntered as e:
@@ -250,7 +296,7 @@ def run_copy(cfg):
         if not decide(want_len > 0):
             return ('ok-empty',)
         val = data.get(i, ch) if chan > 1 else data.get(i)
-        raw = SAMP((i * chan + ch) * sampsize, z3.IntVal(sampsize))
+        raw = SAMP((i * chan + ch) * sampsize, z3.IntVal(sampsize), 1 if order == '10' else 0)
         through_table = samptype in ('alaw', 'ulaw') and (dt is None or dt.itemsize > 1)
         want = TAB(z3.IntVal(0 if samptype == 'alaw' else 1), raw) if through_table else raw
         if decide(val != want):
@@ -269,7 +315,7 @@ def run_copy(cfg):
                                 'present_bytes': m.eval(z3.Int('present_bytes'), True).as_long()})
             continue
         m = ctx.model()
-        w = dict(kind='copy', ch=chan, size=sampsize, coding=samptype, dt=cfg['dt'], what=res[0], detail=res[1] if len(res) > 1 else None,
+        w = dict(kind='copy', ch=chan, size=sampsize, coding=samptype, dt=cfg['dt'], order=order, what=res[0], detail=res[1] if len(res) > 1 else None,
                  sample_count=m.eval(z3.Int('sample_count'), True).as_long(), present_bytes=m.eval(z3.Int('present_bytes'), True).as_long())
         if res[0] == 'magic':
             try:
@@ -618,7 +664,8 @@ def replay(w):
     raw = rng.randint(0, 256, size=present).astype(np.uint8).tobytes()
     if w.get('magic_offset') is not None and w['magic_offset'] + 4 <= len(raw):
         raw = raw[:w['magic_offset']] + b'ajkg' + raw[w['magic_offset'] + 4:]       # samples that happen to spell the shorten magic
-    blob = make_sphere(raw, sc, ch, size, coding)
+    order = w.get('order', '10')
+    blob = make_sphere(raw, sc, ch, size, coding, order=order)
     dtype = {None: None, 'u1': np.uint8, 'i1': np.int8, 'i2': np.int16, 'i4': np.int32}[dt]
     with warnings.catch_warnings(record=True) as wl:
         warnings.simplefilter('always')
@@ -627,7 +674,7 @@ def replay(w):
         except Exception as e:
             return {'reproduced': True, 'detail': 'read_signal raised %s: %s' % (type(e).__name__, e)}
     nfr = min(present // (ch * size), sc)
-    src = np.frombuffer(raw[:nfr * ch * size], dtype=('>i2' if size == 2 else np.uint8))
+    src = np.frombuffer(raw[:nfr * ch * size], dtype=(('>i2' if order == '10' else '<i2') if size == 2 else np.uint8))
     if coding in ('ulaw', 'alaw') and (dtype is None or np.dtype(dtype).itemsize > 1):
         src = (sph.ULAW2PCM if coding == 'ulaw' else sph.ALAW2PCM)[src]
     elif dtype is not None and np.dtype(dtype).itemsize == 1:
@@ -637,7 +684,7 @@ def replay(w):
         return {'reproduced': True, 'detail': 'channels=%d %s sample_count=%d present=%d bytes: shape %s, expected %s' % (ch, coding, sc, present, got.shape, want.shape)}
     if not np.array_equal(got.astype(np.int64), want.astype(np.int64)):
         bad = np.argwhere(got.astype(np.int64) != want.astype(np.int64))[0]
-        return {'reproduced': True, 'detail': 'channels=%d %s dtype=%s sample_count=%d: first wrong sample at %s' % (ch, coding, dt, sc, tuple(int(b) for b in bad))}
+        return {'reproduced': True, 'detail': 'channels=%d %s (byte format %s) dtype=%s sample_count=%d: first wrong sample at %s' % (ch, coding, order if size == 2 else '1', dt, sc, tuple(int(b) for b in bad))}
     if (nfr < sc) != bool(wl):
         return {'reproduced': True, 'detail': 'short=%s but %d warnings' % (nfr < sc, len(wl))}
     return {'reproduced': False, 'detail': 'real reader matches'}
